@@ -328,7 +328,7 @@ def _run(chk, rng, root, ok):
     # ---------------------------------------------------------------- ser / rt / parse
     ser_cases, rt_cases, parse_cases, py_bad = [], [], [], []
     texts = []
-    n_ser = chk.n(160, 1500)
+    n_ser = chk.n(120, 1500)
     for i in range(n_ser):
         lay = "flat" if i % 2 == 0 else "md5"
         wf = rng.random() < 0.8
@@ -358,7 +358,7 @@ def _run(chk, rng, root, ok):
     chk.count("ser", len(ser_cases))
     chk.count("rt", len(rt_cases))
 
-    n_parse = chk.n(260, 2500)
+    n_parse = chk.n(200, 2500)
     seen = set()
     for i in range(n_parse):
         lay, text = rng.choice(texts)
@@ -382,8 +382,8 @@ def _run(chk, rng, root, ok):
 
     # ---------------------------------------------------------------- ops / crash
     ops_cases, crash_cases, crash_bad = [], [], []
-    n_store = chk.n(8, 60)
-    per_store = chk.n(22, 10 ** 6)
+    n_store = chk.n(6, 36)
+    per_store = chk.n(20, 10 ** 6)
     pid = os.getpid()
     for i in range(n_store):
         lay = "flat" if i % 2 == 0 else "md5"
@@ -460,15 +460,17 @@ def _run(chk, rng, root, ok):
     spec_bad = []
     found_input = bool(py_bad or crash_bad)
     results = {}
-    for name, ty, cases, evals in streams:
-        if not ok:
-            break
-        r = chk.coq_eval(name, IMPORTS, ty, cases, evals, shard=150)
-        if r is None:
-            continue
-        results[name] = r
-        if name == "rt":
-            spec_bad = [rt_cases[i] for i in r[1]]
+    if ok:
+        import concurrent.futures as cf
+        with cf.ThreadPoolExecutor(max_workers=len(streams)) as ex:
+            futs = {name: ex.submit(chk.coq_eval, name, IMPORTS, ty, cases, evals, 200)
+                    for name, ty, cases, evals in streams}
+        for name, f in futs.items():
+            r = f.result()
+            if r is not None:
+                results[name] = r
+        if "rt" in results:
+            spec_bad = [rt_cases[i] for i in results["rt"][1]]
     found_input = found_input or bool(spec_bad)
     for name, ty, cases, evals in streams:
         r = results.get(name)
